@@ -18,6 +18,17 @@ def main():
     space = importlib.import_module(f"spaces.{a.pid.lower()}")
     from mcx import explore
 
+    # pre-flight: the tree must import, otherwise forked workers would die in their initialiser and the pool would respawn forever
+    import subprocess
+
+    repo = os.environ.get("VERIF_REPO", "/repo")
+    pf = subprocess.run(
+        ["/venv/bin/python", "-c", f"import sys; sys.path.insert(0, {repo!r}); import csvpath, csvpath.csvpaths"],
+        capture_output=True, text=True, cwd="/", timeout=120,
+    )
+    if pf.returncode != 0:
+        print(f"HARNESS-ERROR property={a.pid} csvpath does not import from {repo}:\n{pf.stderr[-800:]}")
+        sys.exit(2)
     if a.replay:
         sys.exit(explore.replay(space, a.replay))
     if hasattr(space, "main"):
